@@ -396,16 +396,30 @@ impl DateFilter for ds::MonthdayRange {
                 let start_month: u32 = *range.start() as _;
                 let end_month: u32 = *range.end() as _;
 
-                let start = NaiveDate::from_ymd_opt(year, *range.start() as _, 1)?;
-                let end = {
-                    if start_month <= end_month && end_month < 12 {
-                        NaiveDate::from_ymd_opt(year, end_month + 1, 1)?
+                let month_start = |month: u32| NaiveDate::from_ymd_opt(year, month, 1);
+
+                let month_end = |month: u32| {
+                    if month < 12 {
+                        NaiveDate::from_ymd_opt(year, month + 1, 1)?.pred_opt()
                     } else {
-                        NaiveDate::from_ymd_opt(year + 1, end_month % 12 + 1, 1)?
+                        NaiveDate::from_ymd_opt(year, 12, 31)
                     }
                 };
 
-                Some(next_change_from_bounds(date, [start], [end]))
+                if start_month <= end_month {
+                    Some(next_change_from_bounds(
+                        date,
+                        [month_start(start_month)?],
+                        [month_end(end_month)?],
+                    ))
+                } else {
+                    // Wrapping range: it matches the start and the end of the year
+                    Some(next_change_from_bounds(
+                        date,
+                        [month_start(1)?, month_start(start_month)?],
+                        [month_end(end_month)?, month_end(12)?],
+                    ))
+                }
             }
             ds::MonthdayRange::Date { start, end } if start.0.has_year() => {
                 let interval = single_interval_of_dated_range(start, end);
